@@ -103,6 +103,7 @@ def gen_specs(rng, solver, df, pen, seed, rep):
                     group_style=str(rng.choice(["contig", "perm"])))
         if xc and xc.startswith("zero_group"):
             spec["zero_group"] = xc.split("@")[1]
+            spec["zero_weight_on_null"] = bool(rng.random() < 0.4)       # an all-zero group that is also unpenalised
         elif xc == "single_group":
             spec["single_group"] = True
         elif xc and p > 1:
